@@ -46,6 +46,12 @@ def rod(s, c):
     out['steady'] = max(lin, drift, b0, bL)
     return out
 
+def d2r(f, x, h):
+    # Richardson-extrapolated 5-point second difference: truncation error O(h^6) instead of O(h^4).  The truncated Rectangle series carries modes up to
+    # k = 100 pi / a; close to the top edge their second differences at the plain step were off by more than the threshold although the series
+    # satisfies the heat equation exactly (theorem rectangle_heat_equation)
+    return (16.0 * d2(f, x, h / 2.0) - d2(f, x, h)) / 15.0
+
 def rectangle(s, c):
     a, b, kap = float(s.a), float(s.b), float(s.kappa)
     tau = a * a / kap
@@ -56,7 +62,7 @@ def rectangle(s, c):
     worst = 0.0
     for t in (c['t1'] * tau, c['t2'] * tau):
         Tt = d1(lambda tt: T(xs, ys, tt), t, 1e-4 * tau)
-        lap = d2(lambda xx: T(xx, ys, t), xs, 1e-3 * a) + d2(lambda yy: T(xs, yy, t), ys, 1e-3 * b)
+        lap = d2r(lambda xx: T(xx, ys, t), xs, 1e-3 * a) + d2r(lambda yy: T(xs, yy, t), ys, 1e-3 * b)
         worst = max(worst, float(np.max(np.abs(Tt - kap * lap)) / (np.max(np.abs(Tt)) + 1e-3 * Tsc / tau)))
     out['pde'] = worst
     t = c['t2'] * tau
@@ -68,7 +74,7 @@ def rectangle(s, c):
     out['sides_flux'] = float(max(np.max(np.abs(fl0)), np.max(np.abs(fla))) * a / Tsc)
     out['ic_trunc'] = float(np.max(np.abs(T(xs, ys, 1e-5 * tau))) / Tsc)
     st = T(xs, ys, 60 * tau)
-    lap = d2(lambda xx: T(xx, ys, 60 * tau), xs, 1e-2 * a) + d2(lambda yy: T(xs, yy, 60 * tau), ys, 1e-2 * b)
+    lap = d2r(lambda xx: T(xx, ys, 60 * tau), xs, 2e-3 * a) + d2r(lambda yy: T(xs, yy, 60 * tau), ys, 2e-3 * b)
     out['steady_fd'] = float(max(np.max(np.abs(st - T(xs, ys, 120 * tau))) / Tsc, np.max(np.abs(lap)) * a * a / Tsc))
     return out
 
